@@ -33,6 +33,7 @@ func (c05) Batches(tier string, seed uint64) []core.Batch {
 	b = append(b, spread("mutant", 8, tierN(tier, 10000, 50000))...)
 	b = append(b, spread("raw", 4, tierN(tier, 10000, 50000))...)
 	b = append(b, spread("big", 4, tierN(tier, 2, 8))...)
+	b = append(b, spread("corpus", 2, 0)...) // relationship fields of this machine's dpkg database
 	b = append(b, spread("arch", 4, 0)...)
 	b = append(b, spread("exh", 16, 0)...)
 	return b
@@ -96,6 +97,23 @@ var c05Pinned = []string{
 func (p c05) RunBatch(t *core.T, b core.Batch) {
 	r := t.Rand(b.Name, fmt.Sprint(b.Arg))
 	switch b.Name {
+	case "corpus":
+		vals := corpusFieldValues("Depends", "Pre-Depends", "Recommends", "Suggests", "Breaks", "Conflicts", "Replaces", "Provides", "Enhances", "Built-Using")
+		if len(vals) == 0 {
+			t.Cover("corpus:unavailable")
+			return
+		}
+		for i := b.Arg; i < len(vals); i += 2 {
+			s := vals[i]
+			t.Case("dep", []byte(s), func(c *core.C) {
+				if _, err := dependency.Parse(s); err != nil {
+					c.Failf("Parse rejects a relationship field of the dpkg database: %v\nfield: %q", err, s)
+					return
+				}
+				p.fix(c, s, "corpus")
+			})
+		}
+		t.CoverN("corpus:dpkg-database-fields", int64(len(vals)/2))
 	case "pinned":
 		for _, s := range c05Pinned {
 			s := s
